@@ -1115,12 +1115,14 @@ Error CodeHolder::flatten() noexcept {
     }
     section->set_offset(offset);
 
-    // Make sure the previous section extends a bit to cover the alignment.
-    if (prev) {
-      prev->_virtual_size = offset - prev->_offset;
+    // Make sure the previous section extends a bit to cover the alignment (empty sections stay empty).
+    if (real_size) {
+      if (prev) {
+        prev->_virtual_size = offset - prev->_offset;
+      }
+      prev = section;
     }
 
-    prev = section;
     offset += real_size;
   }
 
